@@ -12,9 +12,70 @@ from . import equiv, speccheck
 PROP = "C15"
 
 
+def docs_stream(v, findings):
+    """the documented notation, exhaustively on small tables (Polars): `[group_by(g) >>] arrange(o) >> mutate(f(x)) [>> ungroup()]` against
+    `mutate(f(x, [partition_by=g,] arrange=o))`, for every marker combination on a nullable order key without ties, with and without a
+    grouping, for shift / row_number - same rows up to order.  (On SQL the `arrange` verb is not the window order - known
+    finding D9 - so the verb form is only meaningful there with explicit `arrange=`; the cross-backend side is C05's.)"""
+    import itertools
+    import random
+
+    import polars as pl
+    import pydiverse.transform as pdt
+
+    rng = random.Random(v.seed)
+    problems, n = [], 0
+    n_tables = 3 if v.tier == "quick" else 40
+    for ti in range(n_tables):
+        rows = rng.randint(5, 9)
+        ks = rng.sample(range(1, 40), rows)
+        for i in rng.sample(range(rows), rng.randint(1, 2)):
+            ks[i] = None
+        # at most one null per group so that the order within a group is total
+        gs = [rng.choice([1, 2]) for _ in range(rows)]
+        seen = set()
+        for i, (gv, kv) in enumerate(zip(gs, ks)):
+            if kv is None:
+                if gv in seen:
+                    ks[i] = 40 + i
+                seen.add(gv)
+        df = pl.DataFrame({"g": gs, "o": ks, "x": [rng.randint(-5, 50) for _ in range(rows)]}, schema={"g": pl.Int64, "o": pl.Int64, "x": pl.Int64})
+        one_null = sum(k is None for k in ks) <= 1
+        markers = {"plain": lambda c: c, "nulls_first": lambda c: c.nulls_first(), "nulls_last": lambda c: c.nulls_last(),
+                   "desc": lambda c: c.descending(), "desc_nulls_first": lambda c: c.descending().nulls_first(),
+                   "desc_nulls_last": lambda c: c.descending().nulls_last()}
+        fns = {"shift1": lambda c, **kw: c.shift(1, **kw), "shift-1_0": lambda c, **kw: c.shift(-1, 0, **kw), "shift2": lambda c, **kw: c.shift(2, **kw),
+               "row_number": lambda c, **kw: pdt.row_number(**kw)}      # (cum_sum requires `arrange=`: it has no verb form)
+        for (mn, mk), (fname, f), grouped in itertools.product(markers.items(), fns.items(), (True, False)):
+            if not grouped and not one_null:
+                continue
+            t = pdt.Table(df, name="docs")
+            try:
+                if grouped:
+                    lhs = t >> pdt.group_by(t.g) >> pdt.arrange(mk(t.o)) >> pdt.mutate(y=f(t.x)) >> pdt.ungroup() >> pdt.export(pdt.Polars())
+                    rhs = t >> pdt.mutate(y=f(t.x, partition_by=t.g, arrange=mk(t.o))) >> pdt.export(pdt.Polars())
+                else:
+                    lhs = t >> pdt.arrange(mk(t.o)) >> pdt.mutate(y=f(t.x)) >> pdt.export(pdt.Polars())
+                    rhs = t >> pdt.mutate(y=f(t.x, arrange=mk(t.o))) >> pdt.export(pdt.Polars())
+                n += 1
+                a = sorted(map(repr, lhs.select("g", "o", "x", "y").rows()))
+                b = sorted(map(repr, rhs.select("g", "o", "x", "y").rows()))
+                if a != b:
+                    problems.append((("docs_notation_differs", fname, mn, "grouped" if grouped else "ungrouped"),
+                                     dict(table=df.to_dict(as_series=False), verb_form=a, kwarg_form=b)))
+            except Exception as e:  # noqa: BLE001
+                problems.append((("docs_notation_error", fname, mn, "grouped" if grouped else "ungrouped"), dict(table=df.to_dict(as_series=False), exc=type(e).__name__, msg=str(e)[:200])))
+    by = {}
+    for key, item in problems:
+        by.setdefault((key[0], key[1], key[3]), []).append(dict(marker=key[2], **item))
+    for key, items in by.items():
+        v.violation("docs-" + "-".join(key), dict(kind=key[0], fn=key[1], grouping=key[2], n_cases=len(items), cases=items[:3], how="harness/c15.py:docs_stream"))
+    return len(by), dict(documented_notation_pairs=n)
+
+
 def run(tier, seed):
     profiles = ["equiv_" + k for k in equiv.KINDS]
-    return speccheck.run(PROP, tier, seed, profiles, 330, 11000, also=("C01", "C05"), extra_oracle="oracle_c15",
+    return speccheck.run(PROP, tier, seed, profiles, 330, 11000, also=("C01", "C05"), extra_oracle="oracle_c15", extra_stream=docs_stream,
                          assumptions=["both sides of an equivalence are instantiated on the same generated base pipeline and data; window functions use "
                                       "total arrange= orders except in the documented group_by/arrange/ungroup notation (shift, row_number)",
                                       "`x.map` is compared with the when/then chain over `==`; the Lean model sees the is_in-based case expression that "
